@@ -304,11 +304,21 @@ fn draw_shape(r: &mut Rng, p: Profile) -> Shape {
         Profile::Lockstep => *r.pick(&[3usize, 3, 5]),
         _ => [1usize, 2, 3, 3, 3, 3, 4, 5, 5, 3][r.usize(10)],
     };
-    let nl = match p {
+    let mut nv = nv;
+    let mut nl = match p {
         Profile::Singleton => 1 + r.usize(2),
         Profile::Lockstep => r.usize(2),
         _ => [0usize, 0, 0, 1, 1, 2][r.usize(6)],
     };
+    // the directed schedules need room: five voters, and for the membership ones two more nodes
+    match p {
+        Profile::Membership | Profile::Election if r.chance(1, 6) => {
+            nv = 5;
+            nl = 2;
+        }
+        Profile::Replication | Profile::Crash if r.chance(1, 6) => nv = 5,
+        _ => {}
+    }
     let boot = match p {
         Profile::Membership | Profile::Snapshot => {
             if r.chance(3, 4) {
@@ -381,6 +391,8 @@ pub struct Driver {
     pub allow_new_ids: bool,
     /// `drain` returns as soon as this node is in the leader role (directed schedules).
     pub stop_when_leader: Option<usize>,
+    /// `drain` returns as soon as this node's commit index reaches the given index.
+    pub stop_when_committed: Option<(usize, u64)>,
 }
 
 const BOOT_TERM: u64 = 2;
@@ -491,6 +503,7 @@ impl Driver {
             sticky_tick: None,
             allow_new_ids,
             stop_when_leader: None,
+            stop_when_committed: None,
         }
     }
 
@@ -675,6 +688,17 @@ impl Driver {
                         break;
                     }
                 }
+                if r.chance(1, 8) {
+                    // the I/O thread's notice for an older Ready arrives late or twice
+                    let start = r.usize(n);
+                    for k in 0..n {
+                        let v = (start + k) % n;
+                        let nd = &self.sim.nodes[v];
+                        if nd.idle() && nd.mode == AppMode::Async && nd.last_notified > 0 {
+                            return Some(Action::PersistStale(v, r.below(3)));
+                        }
+                    }
+                }
                 Action::Persist(found?, r.chance(1, 3))
             }
             K_FSYNC => Action::Fsync(r.usize(n)),
@@ -698,6 +722,20 @@ impl Driver {
                     self.pick_up_idle()?
                 };
                 let size = *self.rng.pick(&[0usize, 8, 8, 12, 20, 40, 70]);
+                if self.rng.chance(1, 16) {
+                    // an application that batches: several entries in one MsgPropose
+                    let k = 2 + self.rng.usize(2);
+                    let mut items = Vec::new();
+                    for _ in 0..k {
+                        let sz = *self.rng.pick(&[8usize, 8, 12, 30]);
+                        if self.rng.chance(1, 6) {
+                            items.push((0, Some(self.random_conf_spec())));
+                        } else {
+                            items.push((sz, None));
+                        }
+                    }
+                    return Some(Action::ProposeBatch(v, items));
+                }
                 Action::Propose(v, size)
             }
             K_CONF => {
@@ -707,6 +745,15 @@ impl Driver {
                     self.pick_up_idle()?
                 };
                 let spec = self.random_conf_spec();
+                if self.rng.chance(1, 6) {
+                    // two changes (and maybe an ordinary entry) batched into one proposal
+                    let mut items = vec![(0, Some(spec))];
+                    if self.rng.chance(1, 3) {
+                        items.push((8, None));
+                    }
+                    items.push((0, Some(self.random_conf_spec())));
+                    return Some(Action::ProposeBatch(v, items));
+                }
                 Action::ProposeConf(v, spec)
             }
             K_READ => {
@@ -892,6 +939,9 @@ impl Driver {
             || self.stop_when_leader.is_some_and(|v| {
                 self.sim.nodes[v].raw.as_ref().is_some_and(|r| r.raft.state == StateRole::Leader)
             })
+            || self.stop_when_committed.is_some_and(|(v, i)| {
+                self.sim.nodes[v].raw.as_ref().is_some_and(|r| r.raft.raft_log.committed >= i)
+            })
     }
 
     pub fn drain(&mut self, max_iter: usize) {
@@ -907,7 +957,7 @@ impl Driver {
                 let mut guard = 0;
                 while self.sim.nodes[v].up() && guard < 64 {
                     guard += 1;
-                    if self.stop_when_leader.is_some() && self.drain_stop() {
+                    if (self.stop_when_leader.is_some() || self.stop_when_committed.is_some()) && self.drain_stop() {
                         return;
                     }
                     let nd = &self.sim.nodes[v];
@@ -1037,9 +1087,24 @@ impl Driver {
         if !self.sim.nodes[l].idle() {
             return;
         }
+        {
+            let nv0 = self.sim.nodes[l].conf.voters.len();
+            if nv0 != 3 && nv0 != 5 {
+                return;
+            }
+        }
+        // settle first: membership changes still in the pipeline would change the picture
+        self.sim.exec(&Action::Heal);
+        self.drain(8);
+        if self.sim.aborted
+            || !self.sim.nodes[l].idle()
+            || !self.sim.nodes[l].raw.as_ref().is_some_and(|r| r.raft.state == StateRole::Leader && !r.raft.has_pending_conf())
+        {
+            return;
+        }
         let lid = self.sim.nodes[l].id;
         let conf = self.sim.nodes[l].conf.clone();
-        if conf.is_joint() {
+        if conf.is_joint() || !conf.voters.contains(&lid) {
             return;
         }
         let voters: Vec<u64> = conf.voters.iter().cloned().collect();
@@ -1069,11 +1134,6 @@ impl Driver {
         }
         self.rng.shuffle(&mut others);
         others.truncate(k);
-        self.sim.exec(&Action::Heal);
-        self.drain(8);
-        if self.sim.aborted {
-            return;
-        }
         let lag: Vec<usize> = others.iter().filter_map(|id| self.sim.idx_of(*id)).collect();
         for &v in &lag {
             if !self.sim.nodes[v].idle() {
@@ -1203,16 +1263,7 @@ impl Driver {
         if !self.sim.nodes[l].idle() {
             return;
         }
-        let lid = self.sim.nodes[l].id;
-        let conf = self.sim.nodes[l].conf.clone();
-        if conf.is_joint() || conf.voters.len() < 5 {
-            return;
-        }
-        let voters: Vec<u64> = conf.voters.iter().cloned().collect();
-        let all_up = voters
-            .iter()
-            .all(|id| self.sim.idx_of(*id).is_some_and(|v| self.sim.nodes[v].up() && !self.sim.nodes[v].stopped));
-        if !all_up {
+        if self.sim.nodes[l].conf.voters.len() < 5 {
             return;
         }
         self.sim.exec(&Action::Heal);
@@ -1220,7 +1271,19 @@ impl Driver {
         if self.sim.aborted || !self.sim.nodes[l].idle() {
             return;
         }
-        if !self.sim.nodes[l].raw.as_ref().is_some_and(|r| r.raft.state == StateRole::Leader) {
+        if !self.sim.nodes[l].raw.as_ref().is_some_and(|r| r.raft.state == StateRole::Leader && !r.raft.has_pending_conf()) {
+            return;
+        }
+        let lid = self.sim.nodes[l].id;
+        let conf = self.sim.nodes[l].conf.clone();
+        if conf.is_joint() || conf.voters.len() < 5 || !conf.voters.contains(&lid) {
+            return;
+        }
+        let voters: Vec<u64> = conf.voters.iter().cloned().collect();
+        let all_up = voters
+            .iter()
+            .all(|id| self.sim.idx_of(*id).is_some_and(|v| self.sim.nodes[v].up() && !self.sim.nodes[v].stopped));
+        if !all_up {
             return;
         }
         let mut others: Vec<u64> = voters.iter().cloned().filter(|x| *x != lid).collect();
@@ -1339,6 +1402,479 @@ impl Driver {
         self.drain(8);
     }
 
+    /// Directed schedule aimed at quorum arithmetic in joint configurations whose halves overlap
+    /// only partly (C02, C03, C04): from five voters, one explicit joint change adds two voters
+    /// and removes two others, so incoming = O ∪ {s1,s2}, outgoing = O ∪ {a,b} with |O| = 3. The
+    /// overlap O (which holds the leader) is cut off from R = {a,b,s1,s2}: O is a majority of both
+    /// halves and may commit; R is a majority of the union of the halves but of neither half,
+    /// and must not be able to elect anybody. Finally the partition heals and the group leaves
+    /// the joint configuration.
+    pub fn joint_overlap_split(&mut self) {
+        let l = match self.pick_leader() {
+            Some(l) => l,
+            None => return,
+        };
+        if !self.sim.nodes[l].idle() || self.sim.nodes[l].conf.voters.len() != 5 {
+            return;
+        }
+        // settle first: membership changes still in the pipeline would change the picture
+        self.sim.exec(&Action::Heal);
+        self.drain(8);
+        if self.sim.aborted
+            || !self.sim.nodes[l].idle()
+            || !self.sim.nodes[l].raw.as_ref().is_some_and(|r| r.raft.state == StateRole::Leader && !r.raft.has_pending_conf())
+        {
+            return;
+        }
+        let lid = self.sim.nodes[l].id;
+        let conf = self.sim.nodes[l].conf.clone();
+        if conf.is_joint() || conf.voters.len() != 5 || !conf.voters.contains(&lid) {
+            return;
+        }
+        let up = |d: &Driver, id: u64| d.sim.idx_of(id).is_some_and(|v| d.sim.nodes[v].up() && !d.sim.nodes[v].stopped);
+        let spare: Vec<u64> = self.universe.iter().cloned().filter(|id| !conf.voters.contains(id) && up(self, *id)).collect();
+        if spare.len() < 2 || !conf.voters.iter().all(|id| up(self, *id)) {
+            return;
+        }
+        let mut out: Vec<u64> = conf.voters.iter().cloned().filter(|x| *x != lid).collect();
+        self.rng.shuffle(&mut out);
+        let (a, b) = (out[0], out[1]);
+        self.sim.mon.stats.inc("c03.joint_overlap_scenarios");
+        let spec = ConfSpec::V2(
+            ConfChangeTransition::Explicit,
+            vec![
+                (ConfChangeType::AddNode, spare[0]),
+                (ConfChangeType::AddNode, spare[1]),
+                (ConfChangeType::RemoveNode, a),
+                (ConfChangeType::RemoveNode, b),
+            ],
+        );
+        self.sim.exec(&Action::ProposeConf(l, spec));
+        // everybody (including the newcomers) must get into the joint configuration
+        let mut joint_everywhere = false;
+        for _ in 0..(3 * self.knobs.election_tick) {
+            self.drain(10);
+            if self.sim.aborted {
+                return;
+            }
+            joint_everywhere = self.sim.nodes[l].raw.as_ref().is_some_and(|r| r.raft.state == StateRole::Leader)
+                && self.sim.nodes[l].conf.is_joint()
+                && [a, b, spare[0], spare[1]].iter().all(|id| {
+                    self.sim.idx_of(*id).is_some_and(|v| self.sim.nodes[v].up() && self.sim.nodes[v].conf.is_joint())
+                });
+            if joint_everywhere || !self.sim.nodes[l].conf.is_joint() && self.sim.nodes[l].idle() && self.sim.nodes[l].raw.as_ref().is_some_and(|r| !r.raft.has_pending_conf()) {
+                break;
+            }
+            if self.sim.nodes[l].idle() {
+                self.sim.exec(&Action::Tick(l));
+            }
+        }
+        if !joint_everywhere {
+            return;
+        }
+        self.sim.mon.stats.inc("c03.joint_overlap_reached");
+        let rest = [a, b, spare[0], spare[1]];
+        let mut mask = 0u64;
+        for id in &rest {
+            mask |= 1 << id;
+        }
+        self.sim.exec(&Action::Partition(mask));
+        // the overlap commits on its own
+        for _ in 0..2 {
+            if self.sim.nodes[l].idle() {
+                self.sim.exec(&Action::Propose(l, 8));
+            }
+            self.drain(6);
+        }
+        // the rest's clocks run
+        let et = self.knobs.election_tick;
+        let rest_idx: Vec<usize> = rest.iter().filter_map(|id| self.sim.idx_of(*id)).collect();
+        let mut won = false;
+        for _ in 0..(5 * et) {
+            if self.sim.aborted {
+                return;
+            }
+            for &v in &rest_idx {
+                if self.sim.nodes[v].idle() {
+                    self.sim.exec(&Action::Tick(v));
+                }
+            }
+            self.drain(6);
+            if rest_idx.iter().any(|&v| self.sim.nodes[v].raw.as_ref().is_some_and(|r| r.raft.state == StateRole::Leader)) {
+                won = true;
+                break;
+            }
+        }
+        self.sim.mon.stats.inc(if won { "c03.joint_overlap_rest_elected" } else { "c03.joint_overlap_rest_elected_nobody" });
+        if won && !self.sim.aborted {
+            // let the usurper act
+            for &v in &rest_idx {
+                if self.sim.nodes[v].idle() && self.sim.nodes[v].raw.as_ref().is_some_and(|r| r.raft.state == StateRole::Leader) {
+                    self.sim.exec(&Action::Propose(v, 8));
+                }
+            }
+            self.drain(8);
+        }
+        self.sim.exec(&Action::Heal);
+        self.drain(10);
+        // leave the joint configuration
+        if let Some(nl) = self.pick_leader() {
+            if self.sim.nodes[nl].idle() && self.sim.nodes[nl].conf.is_joint() {
+                self.sim.exec(&Action::ProposeConf(nl, ConfSpec::V2(ConfChangeTransition::Auto, vec![])));
+                self.drain(10);
+            }
+        }
+    }
+
+    /// Directed schedule aimed at progress after a rejoin (C10, C16): a voter V is cut off, the
+    /// rest adds a new voter N and hands leadership to it, V's clock runs while it is alone (without
+    /// pre-vote its term climbs), then everything heals and the fair suffix must converge: V knows
+    /// nothing about N, the leader, and N leads at a term below V's.
+    pub fn missed_change_rejoin(&mut self) {
+        let l = match self.pick_leader() {
+            Some(l) => l,
+            None => return,
+        };
+        if !self.sim.nodes[l].idle() || self.sim.nodes[l].conf.voters.len() < 3 {
+            return;
+        }
+        self.sim.exec(&Action::Heal);
+        self.drain(8);
+        if self.sim.aborted
+            || !self.sim.nodes[l].idle()
+            || !self.sim.nodes[l].raw.as_ref().is_some_and(|r| r.raft.state == StateRole::Leader && !r.raft.has_pending_conf())
+        {
+            return;
+        }
+        let lid = self.sim.nodes[l].id;
+        let conf = self.sim.nodes[l].conf.clone();
+        if conf.is_joint() || conf.voters.len() < 3 || !conf.voters.contains(&lid) {
+            return;
+        }
+        let up = |d: &Driver, id: u64| d.sim.idx_of(id).is_some_and(|v| d.sim.nodes[v].up() && !d.sim.nodes[v].stopped);
+        let spare: Vec<u64> = self.universe.iter().cloned().filter(|id| !conf.voters.contains(id) && up(self, *id)).collect();
+        let others: Vec<u64> = conf.voters.iter().cloned().filter(|x| *x != lid && up(self, *x)).collect();
+        if spare.is_empty() || others.len() + 1 < conf.voters.len() {
+            return;
+        }
+        let vid = *self.rng.pick(&others);
+        let nid = *self.rng.pick(&spare);
+        let (vi, ni) = match (self.sim.idx_of(vid), self.sim.idx_of(nid)) {
+            (Some(a), Some(b)) => (a, b),
+            _ => return,
+        };
+        self.sim.mon.stats.inc("c10.missed_change_scenarios");
+        self.sim.exec(&Action::Isolate(vid));
+        // whatever was on the wire to or from V is lost with the link
+        self.sim.net.flights.retain(|f| f.m.to != vid && f.m.from != vid);
+        self.sim.exec(&Action::ProposeConf(l, ConfSpec::V1(ConfChangeType::AddNode, nid)));
+        let et = self.knobs.election_tick;
+        let mut joined = false;
+        for _ in 0..(3 * et) {
+            self.drain(10);
+            if self.sim.aborted {
+                return;
+            }
+            joined = self.sim.nodes[l].conf.voters.contains(&nid)
+                && self.sim.nodes[ni].up()
+                && self.sim.nodes[ni].conf.voters.contains(&nid)
+                && self.sim.nodes[ni].raw.as_ref().map(|r| r.raft.raft_log.last_index())
+                    == self.sim.nodes[l].raw.as_ref().map(|r| r.raft.raft_log.last_index());
+            if joined {
+                break;
+            }
+            if self.sim.nodes[l].idle() {
+                self.sim.exec(&Action::Tick(l));
+            }
+        }
+        if !joined || !self.sim.nodes[l].idle() {
+            self.sim.exec(&Action::Heal);
+            return;
+        }
+        self.sim.exec(&Action::Transfer(l, nid));
+        self.stop_when_leader = Some(ni);
+        for _ in 0..4 {
+            self.drain(8);
+            if self.drain_stop() {
+                break;
+            }
+            if self.sim.nodes[l].idle() {
+                self.sim.exec(&Action::Tick(l));
+            }
+        }
+        self.stop_when_leader = None;
+        if self.sim.aborted {
+            return;
+        }
+        let moved = self.sim.nodes[ni].raw.as_ref().is_some_and(|r| r.raft.state == StateRole::Leader);
+        if moved {
+            self.sim.mon.stats.inc("c10.missed_change_leadership_moved");
+        }
+        self.drain(8);
+        // V alone: its clock runs through a few election timeouts
+        for _ in 0..(7 * et) {
+            if self.sim.aborted {
+                return;
+            }
+            if self.sim.nodes[vi].idle() {
+                self.sim.exec(&Action::Tick(vi));
+            }
+            self.drain(4);
+        }
+        self.sim.net.flights.retain(|f| f.m.to != vid && f.m.from != vid);
+        self.sim.exec(&Action::Heal);
+        crate::sim::settle::settle(self);
+    }
+
+    /// Directed schedule aimed at votes that must survive a restart (C02, C06): voter N stops
+    /// applying, the leader adds a new voter X; voter Y is cut off the moment the addition commits
+    /// (it holds the entry but never learns that it is committed, nor applies it); leadership is
+    /// transferred to X, which wins the next term with N's vote (N's own configuration does not
+    /// list X yet); N crashes right then and restarts next to Y, away from everybody else; Y's
+    /// clock runs and it asks N for a vote in the very same term.
+    pub fn forgotten_vote_split(&mut self) {
+        let l = match self.pick_leader() {
+            Some(l) => l,
+            None => return,
+        };
+        if !self.sim.nodes[l].idle() || self.sim.nodes[l].conf.voters.len() != 3 {
+            return;
+        }
+        self.sim.exec(&Action::Heal);
+        self.drain(8);
+        if self.sim.aborted
+            || !self.sim.nodes[l].idle()
+            || !self.sim.nodes[l].raw.as_ref().is_some_and(|r| r.raft.state == StateRole::Leader && !r.raft.has_pending_conf())
+        {
+            return;
+        }
+        let lid = self.sim.nodes[l].id;
+        let conf = self.sim.nodes[l].conf.clone();
+        if conf.is_joint() || conf.voters.len() != 3 || !conf.voters.contains(&lid) {
+            return;
+        }
+        let up = |d: &Driver, id: u64| d.sim.idx_of(id).is_some_and(|v| d.sim.nodes[v].up() && !d.sim.nodes[v].stopped);
+        let spare: Vec<u64> = self.universe.iter().cloned().filter(|id| !conf.voters.contains(id) && up(self, *id)).collect();
+        let mut others: Vec<u64> = conf.voters.iter().cloned().filter(|x| *x != lid && up(self, *x)).collect();
+        if spare.is_empty() || others.len() != 2 {
+            return;
+        }
+        self.rng.shuffle(&mut others);
+        let (nid, yid) = (others[0], others[1]);
+        let xid = *self.rng.pick(&spare);
+        let (ni, yi, xi) = match (self.sim.idx_of(nid), self.sim.idx_of(yid), self.sim.idx_of(xid)) {
+            (Some(a), Some(b), Some(c)) => (a, b, c),
+            _ => return,
+        };
+        if !self.sim.nodes[ni].idle() {
+            return;
+        }
+        self.sim.mon.stats.inc("c02.forgotten_vote_scenarios");
+        if self.sim.nodes[ni].mode == AppMode::Sync {
+            self.sim.nodes[ni].mode = AppMode::Lazy;
+        }
+        self.sim.nodes[ni].apply_hold = true;
+        // the addition; Y is cut off as soon as the leader has committed it
+        let idx = self.sim.nodes[l].raw.as_ref().map(|r| r.raft.raft_log.last_index()).unwrap_or(0) + 1;
+        self.sim.exec(&Action::ProposeConf(l, ConfSpec::V1(ConfChangeType::AddNode, xid)));
+        self.stop_when_committed = Some((l, idx));
+        self.drain(10);
+        self.stop_when_committed = None;
+        if self.sim.aborted {
+            return;
+        }
+        let committed = self.sim.nodes[l].raw.as_ref().is_some_and(|r| r.raft.raft_log.committed >= idx);
+        let y_has_entry_uncommitted = self.sim.nodes[yi].raw.as_ref().is_some_and(|r| r.raft.raft_log.last_index() >= idx && r.raft.raft_log.committed < idx);
+        if !committed || !y_has_entry_uncommitted {
+            self.sim.nodes[ni].apply_hold = false;
+            return;
+        }
+        self.sim.exec(&Action::Isolate(yid));
+        self.sim.net.flights.retain(|f| f.m.to != yid && f.m.from != yid);
+        // X joins and catches up
+        let et = self.knobs.election_tick;
+        let mut joined = false;
+        for _ in 0..(3 * et) {
+            self.drain(10);
+            if self.sim.aborted {
+                return;
+            }
+            joined = self.sim.nodes[l].conf.voters.contains(&xid)
+                && self.sim.nodes[xi].up()
+                && self.sim.nodes[xi].conf.voters.contains(&xid)
+                && self.sim.nodes[xi].raw.as_ref().map(|r| r.raft.raft_log.last_index())
+                    == self.sim.nodes[l].raw.as_ref().map(|r| r.raft.raft_log.last_index());
+            if joined {
+                break;
+            }
+            if self.sim.nodes[l].idle() {
+                self.sim.exec(&Action::Tick(l));
+            }
+        }
+        if !joined || !self.sim.nodes[l].idle() || !self.sim.nodes[l].raw.as_ref().is_some_and(|r| r.raft.state == StateRole::Leader) {
+            self.sim.nodes[ni].apply_hold = false;
+            self.sim.exec(&Action::Heal);
+            return;
+        }
+        // leadership goes to X; N crashes the moment X has won
+        self.sim.exec(&Action::Transfer(l, xid));
+        self.stop_when_leader = Some(xi);
+        for _ in 0..4 {
+            self.drain(8);
+            if self.drain_stop() {
+                break;
+            }
+            if self.sim.nodes[l].idle() {
+                self.sim.exec(&Action::Tick(l));
+            }
+        }
+        self.stop_when_leader = None;
+        if self.sim.aborted {
+            return;
+        }
+        let x_leads = self.sim.nodes[xi].raw.as_ref().is_some_and(|r| r.raft.state == StateRole::Leader);
+        let term_x = self.sim.nodes[xi].raw.as_ref().map(|r| r.raft.term).unwrap_or(0);
+        let n_voted_x = self.sim.nodes[ni].raw.as_ref().is_some_and(|r| r.raft.term == term_x && r.raft.vote == xid);
+        if !x_leads || !n_voted_x || !self.sim.nodes[ni].up() {
+            self.sim.nodes[ni].apply_hold = false;
+            self.sim.exec(&Action::Heal);
+            return;
+        }
+        self.sim.mon.stats.inc("c02.forgotten_vote_reached");
+        self.sim.exec(&Action::Crash(ni));
+        self.sim.exec(&Action::Partition(1 << nid | 1 << yid));
+        self.sim.net.flights.retain(|f| f.m.to != nid && f.m.from != nid && f.m.to != yid && f.m.from != yid);
+        self.sim.exec(&Action::Restart(ni));
+        if self.sim.nodes[ni].up() {
+            if self.sim.nodes[ni].mode == AppMode::Sync {
+                self.sim.nodes[ni].mode = AppMode::Lazy;
+            }
+            self.sim.nodes[ni].apply_hold = true;
+        }
+        // Y's clock runs: it campaigns for the term X already leads
+        let mut y_won = false;
+        for _ in 0..(3 * et) {
+            if self.sim.aborted {
+                return;
+            }
+            if self.sim.nodes[yi].idle() {
+                self.sim.exec(&Action::Tick(yi));
+            }
+            self.drain(6);
+            let yr = self.sim.nodes[yi].raw.as_ref();
+            if yr.is_some_and(|r| r.raft.state == StateRole::Leader) {
+                y_won = true;
+                break;
+            }
+            if yr.is_some_and(|r| r.raft.term > term_x) {
+                break;
+            }
+        }
+        let y_term = self.sim.nodes[yi].raw.as_ref().map(|r| r.raft.term).unwrap_or(0);
+        self.sim.mon.stats.inc(if y_won && y_term == term_x {
+            "c02.forgotten_vote_second_leader_same_term"
+        } else if y_won {
+            "c02.forgotten_vote_leader_in_later_term"
+        } else {
+            "c02.forgotten_vote_refused"
+        });
+        if self.sim.nodes[ni].up() {
+            self.sim.nodes[ni].apply_hold = false;
+        }
+        self.sim.exec(&Action::Heal);
+        self.drain(8);
+    }
+
+    /// Directed schedule aimed at "one membership change at a time" as a safety matter (C01, C09):
+    /// one batched proposal asks a three-voter leader to remove both other voters. Legally only the
+    /// first removal is admitted (the second becomes an empty entry). The leader is cut off the
+    /// moment it has committed the batch, before the others learn the commit index; it then
+    /// proposes on its own while the others' clocks run. If both removals had been admitted, the
+    /// leader alone and the two others would be two disjoint quorums.
+    pub fn batched_removals_split(&mut self) {
+        let l = match self.pick_leader() {
+            Some(l) => l,
+            None => return,
+        };
+        if !self.sim.nodes[l].idle() || self.sim.nodes[l].conf.voters.len() != 3 {
+            return;
+        }
+        self.sim.exec(&Action::Heal);
+        self.drain(8);
+        if self.sim.aborted
+            || !self.sim.nodes[l].idle()
+            || !self.sim.nodes[l].raw.as_ref().is_some_and(|r| r.raft.state == StateRole::Leader && !r.raft.has_pending_conf())
+        {
+            return;
+        }
+        let lid = self.sim.nodes[l].id;
+        let conf = self.sim.nodes[l].conf.clone();
+        if conf.is_joint() || conf.voters.len() != 3 || !conf.voters.contains(&lid) {
+            return;
+        }
+        let others: Vec<u64> = conf
+            .voters
+            .iter()
+            .cloned()
+            .filter(|x| *x != lid)
+            .filter(|id| self.sim.idx_of(*id).is_some_and(|v| self.sim.nodes[v].up() && !self.sim.nodes[v].stopped))
+            .collect();
+        if others.len() != 2 {
+            return;
+        }
+        self.sim.mon.stats.inc("c01.batched_removals_scenarios");
+        let idx = self.sim.nodes[l].raw.as_ref().map(|r| r.raft.raft_log.last_index()).unwrap_or(0) + 2;
+        self.sim.exec(&Action::ProposeBatch(
+            l,
+            vec![
+                (0, Some(ConfSpec::V1(ConfChangeType::RemoveNode, others[0]))),
+                (0, Some(ConfSpec::V1(ConfChangeType::RemoveNode, others[1]))),
+            ],
+        ));
+        self.stop_when_committed = Some((l, idx));
+        self.drain(10);
+        self.stop_when_committed = None;
+        if self.sim.aborted {
+            return;
+        }
+        if !self.sim.nodes[l].raw.as_ref().is_some_and(|r| r.raft.raft_log.committed >= idx) {
+            return;
+        }
+        self.sim.exec(&Action::Isolate(lid));
+        self.sim.net.flights.retain(|f| f.m.to != lid && f.m.from != lid);
+        self.sim.mon.stats.inc("c01.batched_removals_leader_cut_off");
+        // the leader applies what it committed and goes on alone
+        for _ in 0..3 {
+            self.drain(6);
+            if self.sim.nodes[l].idle() {
+                self.sim.exec(&Action::Propose(l, 8));
+            }
+        }
+        // the others' clocks run
+        let et = self.knobs.election_tick;
+        let oi: Vec<usize> = others.iter().filter_map(|id| self.sim.idx_of(*id)).collect();
+        for _ in 0..(4 * et) {
+            if self.sim.aborted {
+                return;
+            }
+            for &v in &oi {
+                if self.sim.nodes[v].idle() {
+                    self.sim.exec(&Action::Tick(v));
+                }
+            }
+            self.drain(6);
+            if let Some(&w) = oi.iter().find(|&&v| self.sim.nodes[v].raw.as_ref().is_some_and(|r| r.raft.state == StateRole::Leader)) {
+                if self.sim.nodes[w].idle() {
+                    self.sim.exec(&Action::Propose(w, 8));
+                }
+                self.drain(6);
+                break;
+            }
+        }
+        self.sim.exec(&Action::Heal);
+        self.drain(8);
+    }
+
     /// Directed schedule for the "superseded leader" clause of C08: cut the leader (with at most
     /// one companion) off, let the majority side elect a new leader and commit, then issue
     /// reads on the stale leader while its side exchanges heartbeats. Only genuine library
@@ -1363,6 +1899,18 @@ impl Driver {
                 mask |= 1 << c;
                 companion = self.sim.idx_of(c);
             }
+        }
+        // the learners may end up on either side; with the stale leader they keep echoing its
+        // heartbeats although they count for nothing
+        let learners: Vec<u64> = {
+            let c = &self.sim.nodes[l].conf;
+            c.learners.iter().chain(c.learners_next.iter()).cloned().collect()
+        };
+        if !learners.is_empty() && self.rng.chance(1, 2) {
+            for x in &learners {
+                mask |= 1 << x;
+            }
+            self.sim.mon.stats.inc("c08.stale_leader_scenarios_with_learners");
         }
         self.sim.exec(&Action::Partition(mask));
         self.sim.mon.stats.inc("c08.stale_leader_scenarios");
@@ -1510,6 +2058,30 @@ pub fn run_exec_focus(seed: u64, profile: Profile, actions: usize, trace_cap: us
         }
         if matches!(profile, Profile::Replication | Profile::Election | Profile::Crash) && d.rng.chance(1, 4) {
             d.regained_leadership();
+            if d.sim.aborted {
+                break;
+            }
+        }
+        if matches!(profile, Profile::Membership | Profile::Transfer) && d.rng.chance(1, 2) {
+            d.missed_change_rejoin();
+            if d.sim.aborted {
+                break;
+            }
+        }
+        if matches!(profile, Profile::Membership | Profile::Election | Profile::Mixed) && d.rng.chance(1, 4) {
+            d.batched_removals_split();
+            if d.sim.aborted {
+                break;
+            }
+        }
+        if matches!(profile, Profile::Membership | Profile::Election | Profile::Crash) && d.rng.chance(1, 4) {
+            d.forgotten_vote_split();
+            if d.sim.aborted {
+                break;
+            }
+        }
+        if matches!(profile, Profile::Membership | Profile::Election) && d.rng.chance(1, 4) {
+            d.joint_overlap_split();
             if d.sim.aborted {
                 break;
             }
